@@ -228,6 +228,34 @@ func (c *Ctx) cacheWarmAt(fn *ssa.Function, at *ssa.BasicBlock, mapSuffix string
 			}
 		}
 	})
+	if warmed {
+		return true
+	}
+	// the sorted conversion may live in a private helper that is called before `at` on every path
+	for _, h := range c.helpersUnder(fn) {
+		info := c.helpers[h]
+		if info == nil || len(info.sites) != 1 || info.site.Parent() != fn {
+			continue
+		}
+		if !(info.site.Block().Dominates(at) && info.site.Block() != at) {
+			continue
+		}
+		eachInstr(h, func(in ssa.Instruction) {
+			call, isC := in.(*ssa.Call)
+			if !isC || !c.returnsSorted(call) || len(call.Call.Args) == 0 || !strings.HasSuffix(AccessPath(call.Call.Args[0]), mapSuffix) {
+				return
+			}
+			eachInstr(h, func(in2 ssa.Instruction) {
+				ci, isCI := in2.(ssa.CallInstruction)
+				if !isCI || ci.Common().StaticCallee() == nil || c.FnName(ci.Common().StaticCallee()) != "yang.ToEntry" {
+					return
+				}
+				if derivesFrom(ci.Common().Args[0], func(y ssa.Value) bool { return y == ssa.Value(call) }) && loopHeaderOf(in2.Block()) != nil {
+					warmed = true
+				}
+			})
+		})
+	}
 	return warmed
 }
 
